@@ -237,8 +237,9 @@ func GenExchangeDoc(t *rapid.T, eo ExchangeOptions) Doc {
 			op.Responses = []Response{{Code: "204"}, {Code: "200", Media: mkMedia("m200")}, {Code: "500", Media: mkMedia("m500")}}
 		}
 		for k, cname := range sharedObjs {
-			if k == 0 {
-				op.Responses = append(op.Responses, Response{Code: "202", Media: []Media{{ContentType: "application/json", Schema: &Schema{Ref: cname}}}})
+			// every shared object is the JSON body of a response of its own
+			if codes := []string{"202", "203", "206", "207", "208", "226"}; k < len(codes) {
+				op.Responses = append(op.Responses, Response{Code: codes[k], Media: []Media{{ContentType: "application/json", Schema: &Schema{Ref: cname}}}})
 			}
 		}
 		doc.Ops = append(doc.Ops, op)
